@@ -151,7 +151,8 @@ class C11(World):
     pid = "C11"
     chunk = 1
     run_timeout = 150.0
-    quick = dict(runs=700, budget_s=70)
+    quick = dict(runs=520, budget_s=60)
+    selftest_n = dict(quick=(12, 6), thorough=(120, 48))
     thorough = dict(runs=200000, budget_s=1500)
     components_real = [
         "OpenPinch.main.pinch_analysis_service and everything below it (validation, preparation, direct/indirect targeting, graphs, serialisation)",
